@@ -209,8 +209,7 @@ def cmd_rules(ctx):
     ev = Evaluator(repo, inline_depth=2)
     main = repo.func("suit_generator.cmd_sign", "main")
     outs = [o for o in ev.outcomes(main) if o.kind == "return"]
-    if len(outs) != 1:
-        raise AnalysisError("cmd_sign.main: expected one normal outcome")
+    outs = generic.sole_outcome(ctx, outs, "cmd_sign.main: expected one normal outcome")
     o = outs[0]
     dumps = [e.args[0] for e in all_effects(o.effects) if isinstance(e, App) and e.op == "eff:call" and isinstance(e.args[0], App)
              and e.args[0].op == "call:cbor2.dump"]
@@ -254,8 +253,7 @@ def ecdsa_rules(ctx):
             raise AnalysisError(f"{impl.fq}: ECDSA signature encoder not found")
         fq = ctx.fq(fi)
         outs = [o for o in ev.outcomes(fi) if o.kind == "return"]
-        if len(outs) != 1:
-            raise AnalysisError(f"{fq}: expected one outcome")
+        outs = generic.sole_outcome(ctx, outs, f"{fq}: expected one outcome")
         v = outs[0].value
         parts = cat_parts(v)
         pk = P("private_key")
